@@ -716,3 +716,150 @@ func WhoWritesMapField(w *World, rule, rel, field string, allowed ...string) *re
 	}
 	return res
 }
+
+// SendFresh decides rule send-fresh for a command package: what a goroutine
+// sends on a channel must not share mutable storage with what the sender keeps
+// for later iterations. For every Send instruction inside a loop, each
+// reference-typed component of the sent value that is loaded from a local
+// variable must come from a variable allocated inside the innermost loop that
+// contains the send (a fresh variable per iteration), or be a parameter-less
+// constant; a variable declared outside the loop and written or appended to
+// inside it is shared between the message already sent and the next one.
+func SendFresh(w *World, rel string) *report.RuleResult {
+	res := report.NewResult("send-fresh")
+	for _, fn := range w.InPkgs(rel) {
+		name := w.Name(fn)
+		// natural loops: back edges b -> h with h dominating b
+		type loop struct {
+			header *ssa.BasicBlock
+			body   map[*ssa.BasicBlock]bool
+		}
+		var loops []loop
+		for _, b := range fn.Blocks {
+			for _, s := range b.Succs {
+				if s.Dominates(b) {
+					l := loop{header: s, body: map[*ssa.BasicBlock]bool{s: true}}
+					stack := []*ssa.BasicBlock{b}
+					for len(stack) > 0 {
+						x := stack[len(stack)-1]
+						stack = stack[:len(stack)-1]
+						if l.body[x] {
+							continue
+						}
+						l.body[x] = true
+						stack = append(stack, x.Preds...)
+					}
+					loops = append(loops, l)
+				}
+			}
+		}
+		innermost := func(b *ssa.BasicBlock) *loop {
+			var best *loop
+			for i := range loops {
+				if loops[i].body[b] && (best == nil || len(loops[i].body) < len(best.body)) {
+					best = &loops[i]
+				}
+			}
+			return best
+		}
+		nsend := 0
+		for _, b := range fn.Blocks {
+			for _, in := range b.Instrs {
+				snd, ok := in.(*ssa.Send)
+				if !ok {
+					continue
+				}
+				nsend++
+				res.Count("sends", 1)
+				key := fmt.Sprintf("%s/send#%d", name, nsend)
+				lp := innermost(b)
+				if lp == nil {
+					res.OK(key, w.InstrPos(in), name, "sent once, outside any loop")
+					continue
+				}
+				// allocations the sent value is built from
+				var bad []string
+				seen := map[ssa.Value]bool{}
+				var visit func(v ssa.Value)
+				visit = func(v ssa.Value) {
+					if v == nil || seen[v] {
+						return
+					}
+					seen[v] = true
+					switch x := v.(type) {
+					case *ssa.Alloc:
+						// a local: where is it allocated, and what is stored into it?
+						if refType(x.Type().(*types.Pointer).Elem()) || true {
+							if !lp.body[x.Block()] {
+								// allocated once for the whole loop: is it modified inside the loop?
+								for _, r := range *x.Referrers() {
+									if st, ok := r.(*ssa.Store); ok && st.Addr == x && lp.body[st.Block()] {
+										if refType(st.Val.Type()) {
+											bad = append(bad, fmt.Sprintf("variable %s is declared outside the loop, assigned inside it and part of the value sent", x.Comment))
+										}
+									}
+								}
+							}
+							for _, r := range *x.Referrers() {
+								if st, ok := r.(*ssa.Store); ok && st.Addr == x {
+									visit(st.Val)
+								}
+								if fa, ok := r.(*ssa.FieldAddr); ok {
+									for _, r2 := range *fa.Referrers() {
+										if st, ok := r2.(*ssa.Store); ok && st.Addr == fa {
+											visit(st.Val)
+										}
+									}
+								}
+							}
+						}
+					case *ssa.UnOp:
+						visit(x.X)
+					case *ssa.Phi:
+						if x.Block() == lp.header && refType(x.Type()) {
+							bad = append(bad, fmt.Sprintf("%s carries a reference from one iteration to the next and is part of the value sent", x.Comment))
+						}
+						for _, e := range x.Edges {
+							visit(e)
+						}
+					case *ssa.Slice:
+						// s[:0] re-uses the backing array of s
+						visit(x.X)
+					case *ssa.MakeInterface:
+						visit(x.X)
+					case *ssa.FieldAddr:
+						visit(x.X)
+					case *ssa.Call:
+						if bi, ok := x.Call.Value.(*ssa.Builtin); ok && bi.Name() == "append" {
+							visit(x.Call.Args[0])
+						}
+					case *ssa.MakeClosure:
+						for _, bnd := range x.Bindings {
+							visit(bnd)
+						}
+					}
+				}
+				visit(snd.X)
+				// closures created in the loop that capture outer variables and write them
+				if len(bad) == 0 {
+					res.OK(key, w.InstrPos(in), name, "every reference in the sent value comes from a variable that is fresh in each iteration")
+				} else {
+					res.Bad(key, w.InstrPos(in), name, dedupeStr(bad)+": the receiver and the next iteration share the same storage (data race, results of one file overwritten by the next)")
+				}
+			}
+		}
+	}
+	return res
+}
+
+func dedupeStr(ss []string) string {
+	seen := map[string]bool{}
+	var out []string
+	for _, s := range ss {
+		if !seen[s] {
+			seen[s] = true
+			out = append(out, s)
+		}
+	}
+	return strings.Join(out, "; ")
+}
